@@ -290,6 +290,13 @@ def scenarios():
     S.append(('doc-bottle-brush-start', _cfg([pma, peg, oh], True, term=['$A1', '$B'], start='PMA',
                                              pr={'<1': 0.1, '>': 0.1, '>A': 0.8, '<A1': 0.8, '$A': 0.3, '$B1': 0.0},
                                              fr={'$A1': {'$A': 0, '$B1': 1.0}}), [400, 1000]))
+    # labels that END IN A DIGIT: `[$A1]` is the label A1 with the default order 1, stored as '$A11' -- the order is the LAST digit
+    # (reactivities are keyed with the order written out, so that nothing is ambiguous)
+    pmma3 = _f('PMMA', 'PMMA', (0, '$A1', 1, True), (2, '$A2', 1, False))
+    ps3 = _f('PS', 'PS', (0, '$B1', 1, True), (1, '$B2', 1, False))
+    S.append(('digit-labels', _cfg([pmma3, ps3], True, pr={'$A11': 0.25, '$A21': 0.25, '$B11': 0.25, '$B21': 0.25}), [400, 900]))
+    peo3 = _f('PEO', 'COC', (0, '>1', 1, True), (2, '<1', 1, False))
+    S.append(('digit-labels-directed', _cfg([peo3], True, pr={'>11': 0.5, '<11': 0.5}), [200, 500]))
     # docstring 5: dextran, coarse, ring fragment
     glc = _f('GLC', 'ring3', (0, '$A', 1, True), (1, '$B', 1, False), (2, '$C', 1, False))
     S.append(('doc-dextran', _cfg([glc], False, masses={'GLC': 165},
